@@ -296,6 +296,25 @@ print(json.dumps(out))
             ck.violation(f'compile(compiled, {kw}) did not raise ValueError', {'kwargs': repr(kw)})
         except ValueError:
             ck.count(('passthrough', tuple(kw)))
+    # ... also when the extra argument only restates what the selector was compiled with
+    for ns_, cu_, fl_ in (({'a': 'urn:a'}, None, 0), (None, {':--x': 'p'}, 0), ({'': 'urn:d', 'b': 'urn:b'}, {':--x': 'p', ':--y': 'div'}, 0),
+                          (None, None, sv.DEBUG), ({}, {}, 0), ({'a': 'urn:a'}, {':--x': 'p'}, sv.DEBUG)):
+        import io, contextlib
+        with contextlib.redirect_stdout(io.StringIO()):
+            c2 = sv.compile('p.x, a|b' if ns_ and 'a' in ns_ else 'p.x', ns_, fl_, custom=cu_)
+        if sv.compile(c2) is not c2:
+            ck.violation('compile(compiled) did not return the same object', {'namespaces': ns_, 'custom': cu_, 'flags': fl_})
+        for kw in ({'namespaces': ns_}, {'namespaces': c2.namespaces}, {'custom': cu_}, {'custom': c2.custom}, {'flags': fl_},
+                   {'namespaces': ns_, 'custom': cu_, 'flags': fl_}):
+            kw = {k: v for k, v in kw.items() if v is not None and not (k == 'flags' and v == 0)}
+            if not kw:
+                continue
+            try:
+                sv.compile(c2, **kw)
+                ck.violation(f'compile(compiled, {kw!r}) did not raise ValueError although extra arguments were given (they restate the '
+                             'selector\'s own settings)', {'compiled_with': {'namespaces': ns_, 'custom': cu_, 'flags': fl_}, 'kwargs': repr(kw)})
+            except ValueError:
+                ck.count(('passthrough-restated', tuple(sorted(kw))))
     sv.purge()
     return ck.finish(
         level='proof',
